@@ -167,6 +167,8 @@ func (c *Cluster) serveScan(rs *RS, sc *ServerConn, req *Request, p *pb.ScanRequ
 			}
 			if p.GetRenew() {
 				c.Trace.Emit("scanRenew", "scanner", -1, "known", false)
+			} else {
+				c.Trace.Emit("scanUnknown", "scanner", int(p.GetScannerId())) // a continuation for a scanner that is not there
 			}
 			c.sendExc(sc, req, ExcUnknownScanner)
 			return
@@ -274,7 +276,9 @@ func (c *Cluster) serveScan(rs *RS, sc *ServerConn, req *Request, p *pb.ScanRequ
 		resp.MoreResults = proto.Bool(true)
 	}
 	closed := false
-	if !more || p.GetCloseScanner() {
+	if !more || p.GetCloseScanner() || cut.NoMoreResults {
+		// (a regionserver that declares the whole scan finished closes the region scanner itself, as it does when the region
+		// is exhausted: a continuation request after that is answered UnknownScannerException)
 		delete(c.scanners, scn.id)
 		closed = true
 	}
